@@ -133,6 +133,16 @@ def gen_hist(rng, lane, stripped=False):
         plan.append((rng.choice(['cancel', 'reset']), rng.choice(h.vars)))
     if rng.chance(1, 12):
         plan.insert(rng.below(len(plan) + 1), ('lookbad', None))
+    # Builder.Pkg(..) overrides pending at lookups: in front of a (re-)lookup, or anywhere
+    for _ in range(rng.below(3)):
+        looks = [i for i, (k, _) in enumerate(plan) if k == 'look']
+        if looks and rng.chance(3, 4):
+            i = rng.choice(looks)
+            plan.insert(i, ('pkg', plan[i][1]))
+            if rng.chance(1, 2):                          # … and make sure the variable is looked up again later
+                plan.insert(i + 2 + rng.below(len(plan) - i - 1), ('pkglook', plan[i + 1][1]))
+        else:
+            plan.insert(rng.below(len(plan) + 1), ('pkg', rng.choice(h.vars)))
     for kind, v in plan:
         if kind == 'lookbad':
             if stripped:
@@ -141,6 +151,12 @@ def gen_hist(rng, lane, stripped=False):
                 h.ops.append('lookbad ' + rng.choice(['missing', 'nil', 'nonptr-int', 'nonptr-map']))
             h.meta.append(('lookbad', None, None))
             continue
+        if kind in ('pkg', 'pkglook'):
+            h.ops.append(f'pkg {bld[v]} {1 + rng.below(2)}')
+            h.meta.append(('pkg', None, None))
+            if kind == 'pkg':
+                continue
+            kind = 'look'
         t = ty_of_var(v)
         if kind != 'look' and kind != 'write' and kind != 'reset' and not valid[v]:
             kind0 = kind
@@ -212,7 +228,7 @@ def gen_hist(rng, lane, stripped=False):
 
 def parse_obs(step):
     p = step.split('|')
-    if len(p) != 3:
+    if len(p) != 4:
         return None
     vals = dict(kv.split('=', 1) for kv in p[1].split(',') if '=' in kv)
     return p[0], vals, p[2]
@@ -237,7 +253,10 @@ def oracle(h, obs):
             if '/' in val:
                 return (k, f'{w}: direct read and accessor disagree ({val})', 'readers-disagree')
         exp = dict(cur)
-        if kind in ('look', 'lookbad'):
+        if kind == 'pkg':
+            if out != 'ok':
+                return (k, f'{h.ops[k]} failed: {out}', 'pkg-failed')
+        elif kind in ('look', 'lookbad'):
             if kind == 'look' and out != 'ok':
                 return (k, f'lookup of {v} failed: {out}', 'lookup-failed')
             if kind == 'lookbad' and not out.startswith('panic:'):
@@ -349,6 +368,12 @@ def execute(lines, tag, stripped=False):
 
 
 CORPUS = [  # the confirmed defects of F8 and their relatives, run first on every seed
+    # same unexported variable looked up again under a pending Pkg(..) override: must be the same mocker
+    ('disc', 'int=int:1', ['look 0 u int', 'set 0 int:2', 'pkg 0 1', 'look 0 u int', 'set 1 int:3', 'cancel 1'],
+     [('look', 'int', None), ('set', 'int', 'int:2'), ('pkg', None, None), ('look', 'int', None), ('set', 'int', 'int:3'), ('cancel', 'int', None)]),
+    ('disc', 'ptr=ptr:1', ['pkg 0 2', 'look 0 p ptr', 'set 0 ptr:2', 'pkg 0 1', 'look 0 p ptr', 'apply 1 ret:ptr:3', 'reset 0'],
+     [('pkg', None, None), ('look', 'ptr', None), ('set', 'ptr', 'ptr:2'), ('pkg', None, None), ('look', 'ptr', None), ('apply', 'ptr', 'ptr:3'),
+      ('reset', ['ptr'], None)]),
     ('disc', 'int=int:1', ['look 0 p int', 'set 0 int:2', 'set 0 int:3', 'reset 0'],
      [('look', 'int', None), ('set', 'int', 'int:2'), ('set', 'int', 'int:3'), ('reset', ['int'], None)]),
     ('disc', 'int=int:1', ['look 0 p int', 'cancel 0'], [('look', 'int', None), ('cancel', 'int', None)]),
@@ -521,7 +546,7 @@ def run(tier):
         'evaluations': len(lines) + len(slines), 'distinct_nontrivial': len(nontrivial),
         'traces_validated_against_impl': len(lines) + len(slines) - len(diffs),
         'rule': 'one evaluation = one whole history (1-3 variables of 25 types x 2 variables, lookups by pointer or by symbol name, Set/Apply x0..7 incl. malformed values and callbacks, '
-                'Cancel/Reset x1..n, direct writes, re-lookups; lanes: disc = one mocker per variable at a time (oracle + correspondence), long = same, longer, wild = stale handles too '
+                'Cancel/Reset x1..n, direct writes, re-lookups, Builder.Pkg overrides pending at lookups; lanes: disc = one mocker per variable at a time (oracle + correspondence), long = same, longer, wild = stale handles too '
                 '(correspondence only), stripped binary) or one c08.asg type pair; non-trivial = distinct history in which at least one Set/Apply succeeded on the real code',
         'distribution': dist,
         'assignability_pairs': len(asg_lines()),
